@@ -85,6 +85,13 @@ Theorem C07_definitions :
   (forall w ang (m : mesh R), vertex_normals Rops w ang m
      = map (normalized Rops) (interpolate_faces_to_vertices Rops (vzero Rops) (vadd Rops) (vscale Rops) (vdiv Rops) w
                                 (face_area Rops m) ang m (face_normals Rops m))) /\
+  (* the caller's custom_fnormals win over a cached "normals" attribute (0), the cache over recomputation (1 / 2) *)
+  (forall cached : bool, g_vn_source true cached = 0%nat /\ g_vn_source false true = 1%nat /\ g_vn_source false false = 2%nat) /\
+  (forall w ang (m : mesh R) (fn : list V3),
+     vertex_normals_custom Rops w ang m fn
+     = map (normalized Rops) (interpolate_faces_to_vertices Rops (vzero Rops) (vadd Rops) (vscale Rops) (vdiv Rops) w
+                                (face_area Rops m) ang m fn) /\
+     vertex_normals Rops w ang m = vertex_normals_custom Rops w ang m (face_normals Rops m)) /\
   (* angle defect of a vertex: 2 pi (inside) / pi (border) minus the corner angles at the vertex; 0 on the border if zero_border *)
   (forall (zb : bool) (pi : R) (ang : list R) (m : mesh R) (v : Z),
      (forall F, In F (faces m) -> forall u, In u F -> (0 <= u < zlen (verts m))%Z) -> (0 <= v < zlen (verts m))%Z ->
